@@ -7,6 +7,7 @@ package sconn
 
 import (
 	"net"
+	"os"
 	"sync"
 	"sync/atomic"
 	"time"
@@ -58,6 +59,7 @@ type Conn struct {
 	WriteErr func(k int) error
 	OnTake   func(k int) // called inside ReadFrom call #k after it has taken a datagram, before it returns it
 	OnClose  func()      // called at the start of every Close call (before the conn is closed)
+	wdl      time.Time   // write deadline (zero: none)
 	CloseErr error       // what Close returns (the conn is closed all the same, like a socket whose owner closed it first)
 }
 
@@ -155,6 +157,13 @@ func (c *Conn) WriteTo(b []byte, addr net.Addr) (int, error) {
 		return 0, net.ErrClosed
 	default:
 	}
+	c.mu.Lock()
+	dl := c.wdl
+	c.mu.Unlock()
+	if !dl.IsZero() && !time.Now().Before(dl) {
+		c.log(Event{Kind: "tx.deadline"})
+		return 0, &net.OpError{Op: "write", Net: "udp", Err: os.ErrDeadlineExceeded}
+	}
 	w := Write{T: c.since(), Dest: addr, B: append([]byte{}, b...), Seq: NextSeq()}
 	c.mu.Lock()
 	k := len(c.writes)
@@ -245,10 +254,18 @@ type addr struct{}
 func (addr) Network() string { return "sconn" }
 func (addr) String() string  { return "sconn" }
 
-func (c *Conn) LocalAddr() net.Addr                { return &net.UDPAddr{IP: net.IPv4zero, Port: 68} }
-func (c *Conn) SetDeadline(t time.Time) error      { return nil }
-func (c *Conn) SetReadDeadline(t time.Time) error  { return nil }
-func (c *Conn) SetWriteDeadline(t time.Time) error { return nil }
+func (c *Conn) LocalAddr() net.Addr { return &net.UDPAddr{IP: net.IPv4zero, Port: 68} }
+
+// Write deadlines are honoured like a socket honours them: once one is set it stays until it is changed, and a write
+// at or after that instant fails with a timeout.  (Read deadlines are accepted and ignored: nothing here sets them.)
+func (c *Conn) SetDeadline(t time.Time) error     { return c.SetWriteDeadline(t) }
+func (c *Conn) SetReadDeadline(t time.Time) error { return nil }
+func (c *Conn) SetWriteDeadline(t time.Time) error {
+	c.mu.Lock()
+	c.wdl = t
+	c.mu.Unlock()
+	return nil
+}
 
 func (c *Conn) Writes() []Write {
 	c.mu.Lock()
